@@ -3,6 +3,7 @@ package rules
 
 import (
 	"sort"
+	"strings"
 
 	"verif/checker/internal/core"
 )
@@ -40,4 +41,33 @@ var TrustedBase = []string{
 	"documented behaviour of std-lib pieces go-netty delegates to (bufio, net.Buffers.WriteTo, io.LimitReader, io.MultiReader, io.ReadFull, encoding/binary, encoding/json, net/http)",
 	"user code behind interfaces (handlers, Executor, Transport, io.Reader) honours its interface contract and nothing more",
 	"the rule tables in /verif/checker/internal/rules (confirmed by reading the pinned tree)",
+}
+
+// importObligations runs another property's rule set in a scratch context and copies the selected
+// obligations into c under rule R (used where one structural rule is a necessary condition of two properties).
+func importObligations(c *core.Ctx, run func(*core.Ctx), R string, sel func(*core.Obligation) bool) {
+	tmp := core.NewCtx(c.P, c.Property)
+	run(tmp)
+	for _, o := range tmp.Obs {
+		if !sel(o) {
+			continue
+		}
+		c.Instance(R)
+		parts := strings.SplitN(o.Key, "/", 3)
+		construct := o.Key
+		if len(parts) == 3 {
+			construct = parts[1] + ":" + parts[2]
+		}
+		switch o.Status {
+		case core.Discharged:
+			c.OK(R, construct, o.Pos, o.Detail)
+		case core.Violated:
+			c.Bad(R, construct, o.Pos, o.Detail, o.Path...)
+		default:
+			c.Unk(R, construct, o.Pos, o.Detail)
+		}
+	}
+	for f := range tmp.FuncsSeen {
+		c.FuncsSeen[f] = true
+	}
 }
